@@ -151,7 +151,10 @@ def input_json(desc):
     if not desc.get("infer_species"):
         d["leaf_object_species"] = case.leafmap
     if case.leafsyn is not None:
-        d["leaf_syntenies"] = case.leafsyn
+        d["leaf_syntenies"] = dict(case.leafsyn)
+        if desc.get("rootsyn") and desc.get("onames", {}).get("0"):
+            # the documented extra entry: the synteny of the root, keyed by the name the user gave to the root of the object tree
+            d["leaf_syntenies"][desc["onames"]["0"]] = list(desc["rootsyn"])
     return d
 
 
@@ -614,10 +617,13 @@ def main(argv=None):
         with_syn = SR.is_super(algo) or rng.random() < 0.4
         if SR.is_super(algo) and rng.random() < 0.12:
             with_syn = False          # must exit 1 and write nothing
-        base = SR.random_super_input(rng, no, rng.randint(2, 3), rng.randint(1, 3), bool(ordered)) if with_syn else D.random_plain_input(rng, no, rng.randint(2, 3))
+        base = (SR.random_super_input(rng, no, rng.randint(2, 3), rng.randint(1, 3), bool(ordered), rootsyn_p=0.4 if not SR.is_super(algo) or D.ORDERED.get(algo) else 0.0)
+                if with_syn else D.random_plain_input(rng, no, rng.randint(2, 3)))
         if base.get("leafsyn") and rng.random() < 0.35:
             base = D.rename_families(base, rng)
         d = random_named(rng, RC.documented_names(base))
+        if d.get("rootsyn"):
+            d["onames"]["0"] = d["onames"].get("0") or "root"      # the root entry of leaf_syntenies needs a user-given root name
         if rng.random() < 0.35:
             # leaves named <species>_<k> after a species OTHER than the declared one: the explicit leaf_object_species entry is what counts
             sp = sorted(set(d["leafmap"].values()))
